@@ -463,3 +463,27 @@ def switch_target(term, val):
         if v == val:
             return t
     return term["otherwise"]
+
+
+def import_length_predictor_agreement(ctx, rule, floor=3):
+    """The reads inside the SOCKS5-style address decoder are not guarded in the decoder itself (it trusts its callers); every caller guards
+    with the length predictor (`try_decode_at`-role helper). That argument holds only while the predictor agrees, per address variant, with
+    what the encoder writes / the decoder consumes: C14's E3 sibling table. The agreement is a premise of C04 / C07 / C13 as well, so those
+    checks re-evaluate it (shared verdict, own key)."""
+    from ..engine import Ctx
+    from . import c14
+    sub = Ctx(ctx.prog, "C14", ctx.tier)
+    c14.run(sub)
+    n = 0
+    for o in sub.obs:
+        if o.rule == "E3" and ("length-equals-encoded-size" in o.key or o.key.endswith("|all-variants")):
+            parts = o.key.split("|")
+            n += 1
+            ctx.ob(rule, parts[1], "predictor:" + parts[2], o.where, o.ok,
+                   ("length predictor agrees with the encoded size: " if o.ok else
+                    "the length predictor that guards the callers of the address decoder disagrees with the encoded size, so the guard admits a "
+                    "buffer the decoder then over-reads (panic) or holds back a complete message: ") + o.detail, ordinal=False)
+    for (r, w, e, f) in sub.floors:
+        if r == "E3" and "length helpers" in w:
+            ctx.floor(rule, "address length predictors (imported from C14 E3): " + w, e, f)
+    ctx.floor(rule, "length-predictor agreement obligations", floor, n)
